@@ -4,9 +4,11 @@ Everything here *constructs* valid versions ([epoch:]upstream[-revision]; a hyph
 part only when a revision follows, a colon only when an epoch is present, no empty part) -- no
 filtering.  Pools are plain deterministic lists; strategies are Hypothesis strategies.
 
-The last two sections are used by C03 only: versions with *long digit runs* (wider than any
-machine word, with and without zero padding) and *assignment attempts* on a live version object
-(values over the version alphabet, most of them refused only by the colon / hyphen rules).
+The last sections are used by C03 only: versions with *long digit runs* (wider than any
+machine word, with and without zero padding), *assignment attempts* on a live version object
+(values over the version alphabet, most of them refused only by the colon / hyphen rules), the
+*class* of each operand, and version objects *obtained another way* (copies, pickles, constructor
+calls with an object) that are then changed.
 """
 import itertools
 
@@ -582,3 +584,144 @@ def edited_pair():
     """A near-miss pair plus 1-4 assignment attempts (template values built from a donor version, or
     free strings over the version alphabet) to be tried on a live Version(a)."""
     return _EDITED_PAIR
+
+
+# ------------------------------------------------------------------------------------------
+# the class of each operand (C03)
+#
+# Class names are plain strings; the property module maps them to classes of the version family:
+# "Version", "NativeVersion", two user subclasses of Version ("UserVersion": nothing added,
+# "TaggedVersion": one extra plain attribute) and "BaseVersion" (the common base class: it cannot
+# compare on its own, so it only ever faces an operand of one of the other classes).
+
+FAMILY = ["Version", "NativeVersion", "UserVersion", "TaggedVersion"]
+CLASS_PAIRS = ([[x, y] for x in FAMILY for y in FAMILY]
+               + [["BaseVersion", y] for y in FAMILY] + [[x, "BaseVersion"] for x in FAMILY])
+
+# versions with many equal-but-differently-spelled partners, plus near neighbours
+CLASS_POOL = ["1.0", "1.0-0", "0:1.0", "1.00", "01.0-00", "00:1.0-0", "1.0-1", "1.0-01", "0:1.0-1", "1.00-1",
+              "1:1.0", "1:1.0-0", "01:1.00", "1.0~rc", "1.0~rc0", "1.0~", "1.0.0", "1", "1-0", "0:1", "0", "0-0",
+              "0:0", "a", "a0", "~", "1:1:1", "1:1:01-0", "1-1-1", "2.0-1", "1.2-1", "1.02-01",
+              "1." + "0" * 20 + "12", "1.12-0", "1." + W19, "1.0" + W19 + "-0"]
+
+
+def class_pair_cases():
+    """ALL ordered pairs of CLASS_POOL x all 24 ordered pairs of classes."""
+    for a in CLASS_POOL:
+        for b in CLASS_POOL:
+            for c in CLASS_PAIRS:
+                yield {"kind": "pair", "a": a, "b": b, "cls": c}
+
+
+_CLASS_PAIR = st.sampled_from(CLASS_PAIRS)
+
+
+@st.composite
+def _classed_pair(draw):
+    case = dict(draw(_NEAR_PAIR[False]))
+    case["cls"] = draw(_CLASS_PAIR)
+    return case
+
+
+_CLASSED_PAIR = _classed_pair()
+
+
+def classed_pair():
+    """A near-miss pair (see near_pair) whose operands are built with independently drawn classes."""
+    return _CLASSED_PAIR
+
+
+# ------------------------------------------------------------------------------------------
+# version objects obtained another way (C03)
+#
+# case: {"kind": "objects", "a": version, "b": version, "cls": class name, "warm": bool,
+#        "dups": [[source index, how], ...], "edits": [[object index, attribute, value], ...], "order": 0..3}
+# Object 0 is cls(a); each entry of "dups" adds one object made from an earlier one (index modulo the
+# number of objects so far).  The edits are assignment attempts on any of the live objects.  All live
+# objects are observed after every attempt, in index order or (order & 1) in reverse; they are also observed
+# before the first attempt unless (order & 2).
+
+HOW_COPY = ["copy", "deepcopy"]
+HOW_PICKLE = ["pickle0", "pickle1", "pickle2", "pickle3", "pickle4", "pickle5"]
+HOW_CTOR = ["ctor", "str"] + ["ctor:" + c for c in FAMILY]     # cls(object), cls(str(object)), OtherClass(object)
+HOW_ALL = HOW_COPY + HOW_PICKLE + HOW_CTOR
+HOW_ENUM = ["copy", "deepcopy", "pickle2", "pickle5", "ctor", "str", "ctor:NativeVersion", "ctor:UserVersion"]
+
+OBJECT_STARTS = ["1.0-1", "1:1.0-1", "2.0", "0:1.0-0", "1-1-1", "1.0~rc1-1~"]
+OBJECT_DONORS = ["3.0-1", "1:2.0-2", "1.00-01", "7"]
+
+
+def object_edits(donor_parts):
+    """Attempts whose value comes from the donor: the four attributes one by one (mostly accepted), the
+    whole string, and two that are refused on most objects."""
+    e, u, r = donor_parts
+    return [["upstream_version", u], ["debian_revision", r], ["epoch", e], ["full_version", render(e, u, r)],
+            ["epoch", "1" if e is None else None], ["upstream_version", u + ":"], ["full_version", render(e, u, r) + "-"]]
+
+
+def object_cases():
+    """start x donor x way of duplicating x which of the two objects is changed x one attempt x whether the
+    original had been compared and hashed before it was duplicated (observation order rotates); then, for one
+    donor per start, chains: every two ways of duplicating (a duplicate of the duplicate or a second duplicate of
+    the original - three live objects) with four attempts spread over the objects; finally duplicates of
+    every kind alive together, unchanged."""
+    k = 0
+    for a in OBJECT_STARTS:
+        for b in OBJECT_DONORS:
+            edits = object_edits(_split_parts(b))
+            for how in HOW_ENUM:
+                for edit in edits:
+                    for who in (0, 1):
+                        for warm in (False, True):
+                            k += 1
+                            yield {"kind": "objects", "a": a, "b": b, "cls": FAMILY[(k // 7) % len(FAMILY)],
+                                   "warm": warm, "dups": [[0, how]], "edits": [[who] + edit], "order": (k // 3) % 4}
+    for m, a in enumerate(OBJECT_STARTS):
+        for b in OBJECT_DONORS:
+            edits = object_edits(_split_parts(b))
+            for i, h1 in enumerate(HOW_ENUM if b == OBJECT_DONORS[m % len(OBJECT_DONORS)] else []):
+                for j, h2 in enumerate(HOW_ENUM):
+                    k += 1
+                    n = len(edits)
+                    # duplicate of the duplicate / second duplicate of the original; then one attempt on each
+                    # object in turn (a different attribute each), observed after every attempt
+                    seq = [[(i + t) % 3] + edits[(i + j + t) % n] for t in range(4)]
+                    yield {"kind": "objects", "a": a, "b": b, "cls": FAMILY[k % len(FAMILY)], "warm": bool(k % 2),
+                           "dups": [[0, h1], [(i + j) % 2, h2]], "edits": seq, "order": (k // 2) % 4}
+            # unchanged duplicates of every kind, all alive together
+            yield {"kind": "objects", "a": a, "b": b, "cls": "Version", "warm": True,
+                   "dups": [[0, h] for h in HOW_ALL], "edits": [], "order": 0}
+
+
+_HOW = st.sampled_from(HOW_COPY * 6 + HOW_PICKLE * 2 + ["ctor"] * 6 + ["str"] * 2 + HOW_CTOR[2:])
+_OBJ_INDEX = st.integers(0, 3)
+_FAMILY = st.sampled_from(FAMILY)
+_OBJ_DUPS = st.lists(st.tuples(_OBJ_INDEX, _HOW), min_size=1, max_size=3)
+
+
+@st.composite
+def _object_case(draw):
+    p = draw(_PARTS[False])
+    q = apply_mutations(p, draw(_MUTS_12)) if draw(_ONE_IN_FOUR) else draw(_PARTS[False])
+    templates = edit_templates(q) + object_edits(q)
+    edits = []
+    for _ in range(draw(st.integers(0, 4))):
+        mode = draw(_ONE_IN_FOUR)
+        if mode == 0:
+            edit = [draw(_EDIT_ATTR), draw(_FREE_VALUE)]
+        elif mode == 1:
+            edit = templates[draw(_TEMPLATE_IDX)]
+        else:
+            edit = templates[N_EDIT_TEMPLATES + draw(st.integers(0, 6))]
+        edits.append([draw(_OBJ_INDEX)] + edit)
+    return {"kind": "objects", "a": render(*p), "b": render(*q), "cls": draw(_FAMILY), "warm": draw(_BOOL),
+            "dups": [list(d) for d in draw(_OBJ_DUPS)], "edits": edits, "order": draw(_ONE_IN_FOUR)}
+
+
+_OBJECT_CASE = _object_case()
+
+
+def object_case():
+    """A near-miss pair, 1-3 further objects obtained from earlier ones (copy / deepcopy / pickle / constructor
+    call with the object, also of another class) and 0-4 assignment attempts on any of them."""
+    return _OBJECT_CASE
